@@ -1,3 +1,97 @@
+"""Determinism self-test: the same (VERIF_SEED, world, index) must give the same plan and the same
+event-log digest in a fresh interpreter, under another PYTHONHASHSEED, and inside the fork pool.
+
+A mismatch is a harness error (exit 2), never a property violation.
+"""
+import concurrent.futures as cf
+import hashlib
+import multiprocessing
+import os
+import subprocess
+import sys
+
+WORLDS = ["chain", "ec", "hd", "spv", "hashcfg", "wallet", "cosign"]
+# configurations whose event log legitimately depends on PYTHONHASHSEED (real 32-byte ids in hash sets)
+HASHSEED_DEPENDENT = {("chain", "B-block")}
+
+
+def _digest_range(args):
+    world_name, seed, tier, start, n = args
+    from dsim.kernel import runner
+    from dsim.kernel.core import jdump
+    w = runner.load_world(world_name)
+    out = []
+    for i in range(start, start + n):
+        plan, ctx = runner.one_run(w, seed, tier, i)
+        cfg = plan.get("config")
+        cname = cfg if isinstance(cfg, str) else (cfg or {}).get("name", "-")
+        ph = hashlib.sha256(jdump(plan).encode()).hexdigest()[:16]
+        out.append("%d %s %s %s %d" % (i, cname, ph, ctx.digest()[:24], len(ctx.violations)))
+    return out
+
+
+def emit(world_name, seed, tier, start, n, workers):
+    if workers <= 1:
+        lines = _digest_range((world_name, seed, tier, start, n))
+    else:
+        chunk = max(1, n // (workers * 2))
+        jobs = [(world_name, seed, tier, s, min(chunk, start + n - s)) for s in range(start, start + n, chunk)]
+        with cf.ProcessPoolExecutor(max_workers=workers, mp_context=multiprocessing.get_context("fork")) as ex:
+            lines = []
+            for part in ex.map(_digest_range, jobs):
+                lines.extend(part)
+    for l in lines:
+        print(l)
+
+
+def _spawn(world, seed, tier, start, n, workers, hashseed):
+    env = dict(os.environ)
+    env["PYTHONHASHSEED"] = str(hashseed)
+    cmd = [sys.executable, "-m", "dsim.selftest.determinism", "--emit", world, str(seed), tier, str(start), str(n), str(workers)]
+    p = subprocess.run(cmd, env=env, capture_output=True, text=True, timeout=1800)
+    if p.returncode != 0:
+        raise RuntimeError("emit failed for %s: %s" % (world, p.stderr[-2000:]))
+    return [l for l in p.stdout.splitlines() if l and l[0].isdigit()]
+
+
 def main(a):
-    print("not built yet")
-    return 2
+    seeds = a.seeds
+    worlds = a.worlds.split(",") if a.worlds else WORLDS
+    seed = int(os.environ.get("VERIF_SEED", 1))
+    bad = 0
+    total = 0
+    for w in worlds:
+        n = seeds if w not in ("ec", "cosign") else max(20, seeds // 5)
+        base = _spawn(w, seed, a.tier, 0, n, 1, 0)
+        again = _spawn(w, seed, a.tier, 0, n, 1, 0)
+        other = _spawn(w, seed, a.tier, 0, n, 1, 12345)
+        pool = _spawn(w, seed, a.tier, 0, n, 16, 0)
+        total += len(base)
+        for name, lines in (("second fresh interpreter", again), ("fork pool of 16", pool)):
+            if lines != base:
+                diff = [(x, y) for x, y in zip(base, lines) if x != y][:3]
+                print("NONDETERMINISTIC world=%s vs %s: %s" % (w, name, diff))
+                bad += 1
+        skipped = 0
+        for x, y in zip(base, other):
+            cname = x.split()[1]
+            if (w, cname) in HASHSEED_DEPENDENT:
+                skipped += 1
+                continue
+            if x != y:
+                print("NONDETERMINISTIC world=%s under PYTHONHASHSEED=12345: %s | %s" % (w, x, y))
+                bad += 1
+                break
+        print("world=%s runs=%d identical across: fresh interpreter x2, PYTHONHASHSEED 0 vs 12345 (%d hash-seed dependent "
+              "config runs skipped), serial vs 16-process pool" % (w, len(base), skipped), flush=True)
+    if bad:
+        print("HARNESS-ERROR determinism self-test failed (%d mismatches)" % bad)
+        return 2
+    print("determinism self-test ok: %d runs per configuration" % total)
+    return 0
+
+
+if __name__ == "__main__":
+    if len(sys.argv) > 1 and sys.argv[1] == "--emit":
+        _, _, world, seed, tier, start, n, workers = sys.argv
+        emit(world, int(seed), tier, int(start), int(n), int(workers))
